@@ -114,6 +114,7 @@ fn main() {
                 "c03" | "c12" => book03::c03(n, seed),
                 "c16" => book16::c16(),
                 "c17" => book17::c17(n, seed, &argv[5.min(argv.len())..]),
+                "c17sym" => book17::c17_symbolic(),
                 "c18" => book18::c18(),
                 "c20" => book20::c20(n as usize, seed),
                 "c19" => book19::c19(n as usize),
